@@ -203,25 +203,25 @@ class MetadataManager:
                     try:
                         hint_bytes, hint_etag = self.storage.read_file_with_etag(self.HINT_PATH)
                         parsed = self._parse_hint_content(hint_bytes)
-                        if parsed is not None:
-                            filesystem_version, previous_metadata_file = parsed
+                        # A hint naming a file that does not exist is not a
+                        # version (validation then used recovery-by-scanning):
+                        # its number must not be used either, or the next version
+                        # could be numbered BELOW the latest one on disk and lose
+                        # to it the next time the hint is recovered by scanning.
+                        if parsed is not None and self.storage.exists(
+                            f"{self.metadata_path}/{parsed[1]}"
+                        ):
                             # The conditional PUT below is keyed to the ETag of THIS
                             # read. It only protects the commit if this read saw the
                             # very version the validation above was made against: a
                             # commit landing between the two reads would otherwise
                             # be overwritten with a matching ETag.
-                            # (A hint naming a file that does not exist is not a
-                            # version: validation then used recovery-by-scanning,
-                            # and so does the version lookup below.)
-                            if (
-                                validated_info is not None
-                                and previous_metadata_file != validated_info[1]
-                                and self.storage.exists(f"{self.metadata_path}/{previous_metadata_file}")
-                            ):
+                            if validated_info is not None and parsed[1] != validated_info[1]:
                                 raise ConcurrentModificationException(
                                     "Version hint changed between validation and the "
                                     "conditional write; retrying"
                                 )
+                            filesystem_version, previous_metadata_file = parsed
                     except FileNotFoundError:
                         hint_etag = None
                 if filesystem_version is None:
